@@ -102,7 +102,7 @@ def generate(plan) -> None:
                                                                 "000A_rp", "12B0", "1F09", "1F09", "1F09", "1F09rp", "1F09rp", "3150", "rq", "w",
                                                                 "0005", "000C", "0006", "3220s", "3220p", "3220c", "1260", "10A0",
                                                                 "2E04", "313F", "0008", "10E0", "0004", "1FC9rp", "31DA"]),
-                        "cd": r.choice([0, 1, 10, 1855, 2999, 65535, r.randrange(65536)])})
+                        "cd": r.choice([0, 1, 10, 12, 20, 30, 1855, 2999, 65535, r.randrange(65536), r.randrange(40)])})
         else:
             ops.append({"op": "tx", "kind": r.choice(kinds), "z": r.choice(zones), "verb": r.choice([" I", "RP"]),
                         "m": r.choice(["00", "02", "04", "01"])})
@@ -476,7 +476,8 @@ async def run(ctx) -> None:
         if L is None:
             ages = [0.0, 10.0, 3700.0, 90000.0, 900000.0]
         else:
-            ages = [0.0, L / 2, L - 0.002, L + 0.002, 1.5 * L, 2 * L + 2.99, 2 * L + 3.01, 2 * L + GRACE + 0.01, 3 * L + 60, 5 * L + 600]
+            # (a read at age 3 - L, inside the library's grace, is where its fraction-expired is exactly -1)
+            ages = [0.0, L / 2, L - 0.002, L + 0.002, 1.5 * L, 3.0 - L, 3.0 - 2 * L, 2 * L + 2.99, 2 * L + 3.01, 2 * L + GRACE + 0.01, 3 * L + 60, 5 * L + 600]
         was = False
         for age in sorted(set(a for a in ages if a >= 0)):
             target = dtm + _dt.timedelta(seconds=age)
